@@ -450,6 +450,48 @@ pub fn run_c14(rep: &Report) -> i32 {
             }
         }
     }
+    // over-full boards (33 and 34 men, and every empty square filled): the statement quantifies over placements
+    // "legal or not", so a shortcut that counts on at most 32 men must show here. Start position plus every set of
+    // <= 2 of the 32 empty squares filled with any of the 10 non-king piece types; plus all 32 filled with one type.
+    let mut n_overfull = 0u64;
+    {
+        let start = Pos::from_fen("rnbqkbnr/pppppppp/8/8/8/8/PPPPPPPP/RNBQKBNR w KQkq - 0 1").unwrap();
+        let empty: Vec<u8> = (0..64u8).filter(|&s| start.b[s as usize] == rules::EMPTY).collect();
+        let mut types: Vec<u8> = Vec::new();
+        for c in [rules::WHITE, rules::BLACK] {
+            for k in [rules::P, rules::N, rules::B, rules::R, rules::Q] {
+                types.push(rules::pc(c, k));
+            }
+        }
+        for (i, &a) in empty.iter().enumerate() {
+            for &ta in &types {
+                let mut p = start;
+                p.b[a as usize] = ta;
+                full_boards.push(p);
+                n_overfull += 1;
+                if rep.quick() && (a as usize + ta as usize) % 4 != 0 {
+                    continue;
+                }
+                for &b in &empty[i + 1..] {
+                    for &tb in &types {
+                        let mut q = p;
+                        q.b[b as usize] = tb;
+                        full_boards.push(q);
+                        n_overfull += 1;
+                    }
+                }
+            }
+        }
+        for &t in &types {
+            let mut p = start;
+            for &a in &empty {
+                p.b[a as usize] = t;
+            }
+            full_boards.push(p);
+            n_overfull += 1;
+        }
+    }
+    rep.add("over_full_boards_33_to_64_men_with_mirror_and_negation_identity", n_overfull);
     let n_full = full_boards.len() as u64;
     for p in &mut full_boards {
         p.rights = 0;
